@@ -1,7 +1,7 @@
 #!/bin/sh
-# every thorough command once, unchanged tree, one seed.  Usage: tools/thorough_all.sh <seed> [checks...]
+# every thorough command once, unchanged tree, one seed.  Usage: tools/thorough_all.sh <seed> [scale] [checks...]
 cd "$(dirname "$0")/.."
-seed=$1; shift
-for p in ${@:-C17 C15 C18 C11 C03}; do
-  VERIF_SEED=$seed ./check $p --tier thorough --no-evidence 2>&1 | grep -E "VIOLATION|HARNESS|KNOWN|tier=|^violation" | cut -c1-600 | sed "s/^/seed=$seed /"
+seed=$1; scale=${2:-1.0}; shift; [ $# -gt 0 ] && shift
+for p in ${@:-C17 C18 C03 C15 C11}; do
+  VERIF_SEED=$seed ./check $p --tier thorough --scale $scale --no-evidence 2>&1 | grep -E "VIOLATION|HARNESS|KNOWN|tier=|^violation" | cut -c1-600 | sed "s/^/seed=$seed /"
 done
